@@ -33,6 +33,7 @@ def check(repo, run, tier):
     g(check_flag_tags, repo, run, 'C03.R5', tags={'!force', '!weak'})
     g(unitrules.list_prefilter_guard, repo, run, 'C03.R5')
     g(unitrules.adoption_order_table, repo, run, 'C03.R4')
+    g(unitrules.adoption_keeps_own_priority, repo, run, 'C03.R4c')
     g(unitrules.replace_self_propagates_result, repo, run, 'C03.R3')
     g.done()
 
@@ -62,6 +63,7 @@ def mutants(repo):
         Mutant('replace-other-takes-priority', lambda r: in_func(r, 'ConfigNode._replace_other', "        if other._safe is not None:", "        self._priority = other._priority\n        if other._safe is not None:"), ['C03.R3']),
         Mutant('metadata-spread-swapped', lambda r: in_func(r, 'ConfigNode._replace_self', "{ **self._metadata, **other._metadata }", "{ **other._metadata, **self._metadata }"), ['C03.R3']),
         Mutant('metadata-loses-loser', lambda r: in_func(r, 'ConfigNode._replace_other', "{ **other._metadata, **self._metadata }", "{ **self._metadata }"), ['C03.R3']),
+        Mutant('attached-node-restamped-with-container-priority', lambda r: in_func(r, 'ComposedNode.ayns.set_child', "value = ConfigNode(value, **self._get_child_kwargs())", "value = ConfigNode(value, priority=self._priority, **self._get_child_kwargs())"), ['C03.R4c']),
         Mutant('F9-reverted-no-priority-propagation', lambda r: delete_stmt(r, 'ConfigNodeMeta.__call__', lambda t: t.startswith("if 'priority' in kwargs")), ['C03.R4']),
         Mutant('priority-propagation-not-recursive', lambda r: in_func(r, 'ComposedNode._propagate_priority', "            child._propagate_priority()\n", "            pass\n"), ['C03.R4']),
         Mutant('priority-popped-before-children', lambda r: in_func(r, 'ComposedNode.__init__', "kwargs.pop('idx', None)", "kwargs.pop('idx', None)\n        kwargs.pop('priority', None)"), ['C03.R4b']),
